@@ -23,6 +23,8 @@ pub enum VolKind {
     V32b,
     /// FAT16 with 64-block (32 KiB) clusters at a large partition offset
     V16c,
+    /// the largest FAT16 volume (65524 clusters); nearly-full layouts leave its highest clusters free
+    V16d,
 }
 
 impl VolKind {
@@ -40,6 +42,11 @@ impl VolKind {
                 g.clusters = 4200;
                 g
             }
+            VolKind::V16d => {
+                let mut g = scen::g_v16a();
+                g.clusters = 65524;
+                g
+            }
         }
     }
     pub fn name(&self) -> &'static str {
@@ -49,6 +56,7 @@ impl VolKind {
             VolKind::V32a => "V32a",
             VolKind::V32b => "V32b",
             VolKind::V16c => "V16c",
+            VolKind::V16d => "V16d",
         }
     }
 }
@@ -171,6 +179,7 @@ pub fn mut_scenario(o: &MutOpts, prefix: &str) -> Scenario {
         root_free_slots: o.root_free_slots,
         free: o.free,
         fsinfo: o.fsinfo,
+        free_top: o.kind == VolKind::V16d,
     };
     let mut img = scen::build(g.clone(), &to);
     if o.victim {
@@ -895,8 +904,11 @@ fn space_scenarios(tier: &str, prefix: &'static str) -> Vec<(String, ScenMaker)>
             out.push(maker(o, prefix));
         }
     }
+    // the top of the largest FAT16 volume: cluster numbers 0xFFF0..=0xFFF5 are ordinary clusters
+    out.push(maker(base_opts(VolKind::V16d, Some(4), if quick { 5 } else { 6 }, Alpha::Space), prefix));
     if quick {
-        out.push(maker(base_opts(VolKind::V32a, Some(2), 4, Alpha::Space), prefix));
+        out.push(maker(base_opts(VolKind::V32a, Some(2), 6, Alpha::Space), prefix));
+        out.push(maker(base_opts(VolKind::V32b, Some(1), 5, Alpha::Space), prefix));
     }
     out
 }
@@ -908,14 +920,12 @@ pub fn c05_def() -> HistProp {
         scenarios: |t| {
             let mut v = space_scenarios(t, "space");
             // delete/truncate of pre-existing multi-cluster files with ample space
-            let mut o = base_opts(VolKind::V16a, None, if t == "quick" { 3 } else { 4 }, Alpha::Mutate);
+            let mut o = base_opts(VolKind::V16a, None, if t == "quick" { 4 } else { 5 }, Alpha::Mutate);
             o.victim = false;
             v.push(maker(o, "space-mut"));
-            if t != "quick" {
-                let mut o = base_opts(VolKind::V32a, None, 4, Alpha::Mutate);
-                o.victim = false;
-                v.push(maker(o, "space-mut"));
-            }
+            let mut o = base_opts(VolKind::V32a, None, if t == "quick" { 3 } else { 5 }, Alpha::Mutate);
+            o.victim = false;
+            v.push(maker(o, "space-mut"));
             v
         },
         oracles: || {
@@ -938,12 +948,12 @@ pub fn c16_scenarios(tier: &str) -> Vec<(String, ScenMaker)> {
     let quick = tier == "quick";
     // FAT copies on 2-FAT volumes
     for (k, fr) in [(VolKind::V16a, Some(2)), (VolKind::V32a, Some(2)), (VolKind::V32a, None)] {
-        out.push(maker(base_opts(k, fr, if quick { 4 } else { 6 }, Alpha::Space), "fat"));
+        out.push(maker(base_opts(k, fr, if quick { 5 } else { 6 }, Alpha::Space), "fat"));
     }
-    out.push(maker(base_opts(VolKind::V16a, None, if quick { 3 } else { 4 }, Alpha::Mutate), "fat"));
+    out.push(maker(base_opts(VolKind::V16a, None, if quick { 4 } else { 5 }, Alpha::Mutate), "fat"));
     // a full parent directory and one / two free clusters: mkdir takes the last cluster and then cannot grow the parent
     for fr in [1usize, 2] {
-        let mut o = base_opts(VolKind::V32a, Some(fr), if quick { 4 } else { 5 }, Alpha::Space);
+        let mut o = base_opts(VolKind::V32a, Some(fr), if quick { 5 } else { 6 }, Alpha::Space);
         o.sub_free_slots = 0;
         out.push(maker(o, "fsinfo-fullsub"));
     }
@@ -954,11 +964,11 @@ pub fn c16_scenarios(tier: &str) -> Vec<(String, ScenMaker)> {
             if quick && k == VolKind::V32b && fi != FsInfo::Correct {
                 continue;
             }
-            let mut o = base_opts(k, Some(fr), if quick { 4 } else { 6 }, Alpha::Space);
+            let mut o = base_opts(k, Some(fr), if quick { 5 } else { 6 }, Alpha::Space);
             o.fsinfo = fi;
             out.push(maker(o, "fsinfo"));
         }
-        let mut o = base_opts(VolKind::V32a, None, if quick { 3 } else { 4 }, Alpha::Mutate);
+        let mut o = base_opts(VolKind::V32a, None, if quick { 4 } else { 5 }, Alpha::Mutate);
         o.fsinfo = fi;
         out.push(maker(o, "fsinfo-mut"));
     }
@@ -988,11 +998,11 @@ pub fn c02_def() -> HistProp {
                 let mut o = base_opts(VolKind::V16a, None, if t == "quick" { 3 } else { 4 }, Alpha::Mutate);
                 o.moving_clock = true;
                 o.front = Front::Drop;
-                v.push(maker(o, "durable"));
+                v.insert(0, maker(o, "durable"));
                 let mut o = base_opts(VolKind::V32a, Some(1), if t == "quick" { 3 } else { 4 }, Alpha::Mutate);
                 o.moving_clock = true;
                 o.front = Front::Raii;
-                v.push(maker(o, "durable"));
+                v.insert(1, maker(o, "durable"));
             }
             if t != "quick" {
                 // deeper on a reduced volume set
@@ -1001,7 +1011,19 @@ pub fn c02_def() -> HistProp {
                 o.sub_free_slots = 0;
                 v.push(maker(o, "durable"));
             }
-            v
+            // overwriting in place: seek back to the start of an open file (the write after it does not grow the file)
+            v.into_iter()
+                .map(|(n, m)| {
+                    let wrapped: ScenMaker = Box::new(move || {
+                        let mut sc = m();
+                        for f in 0..2u8 {
+                            sc.alphabet.push(Op::SeekStart { f, o: 0 });
+                        }
+                        sc
+                    });
+                    (n, wrapped)
+                })
+                .collect()
         },
         oracles: || vec![Box::new(Durable)],
         budget_s: |t| if t == "quick" { 50 } else { 900 },
@@ -1198,5 +1220,157 @@ pub fn c10_def() -> HistProp {
         budget_s: |t| if t == "quick" { 50 } else { 900 },
         max_states: 2_000_000,
         assumptions: &["block writes are atomic and ordered (as the property assumes)", "free clusters carry a stale pattern of plausible directory entries so exposure of uninitialised contents is visible", "permitted residue: allocated-but-unreferenced clusters and a size not yet updated"],
+    }
+}
+
+// ---------------------------------------------------------------------------
+// C04 — volumes whose information sector is not where / what it should be
+// ---------------------------------------------------------------------------
+
+/// FAT32 volumes whose boot sector points at something that is not an information sector (or whose information
+/// sector has lost a signature). Whether such a volume mounts is not C04's business; what is: if it mounts, a short
+/// mutation history must still write only FAT sectors, clusters that were free (or belong to the root directory),
+/// and bytes 488..496 of a block that really is an information sector.
+pub const ODD_INFO_VARIANTS: [&str; 9] = ["control", "fs_info=0", "fs_info=0xffff", "fs_info=2", "fs_info=6", "lead-signature-wiped", "struct-signature-wiped", "trail-signature-wiped", "all-signatures-wiped"];
+
+pub fn odd_info_case(kind: VolKind, variant: &str) -> (Vec<(String, String)>, bool) {
+    use crate::simdisk::{Clock, SimDisk};
+    use embedded_sdmmc::{Mode, VolumeIdx, VolumeManager};
+    let g = kind.geom();
+    let to = TreeOpts { tree: true, sub_free_slots: 1, root_free_slots: None, free: Some(3), fsinfo: FsInfo::Correct, free_top: false };
+    let base = scen::build(g.clone(), &to);
+    let vol = refat::locate(&base, 0).expect("odd-info base volume");
+    let mut img = Image::new(std::sync::Arc::new(base));
+    let boot = vol.lba;
+    let info = vol.lba + vol.fsinfo;
+    let mut bs = img.rd(boot);
+    let mut is = img.rd(info);
+    match variant {
+        "control" => {}
+        "fs_info=0" => crate::util::put16(&mut bs, 48, 0),
+        "fs_info=0xffff" => crate::util::put16(&mut bs, 48, 0xFFFF),
+        "fs_info=2" => crate::util::put16(&mut bs, 48, 2),
+        "fs_info=6" => crate::util::put16(&mut bs, 48, 6),
+        "lead-signature-wiped" => is[0..4].fill(0),
+        "struct-signature-wiped" => is[484..488].fill(0),
+        "trail-signature-wiped" => is[508..512].fill(0),
+        _ => {
+            is[0..4].fill(0);
+            is[484..488].fill(0);
+            is[508..512].fill(0);
+        }
+    }
+    img.put(boot, &bs);
+    img.put(info, &is);
+    let pre = img.clone();
+    let fat = refat::read_fat(&pre, &vol, 0);
+    let root_chain: Vec<u32> = if vol.fat32 { refat::chain(&fat, &vol, vol.root_cluster).0 } else { vec![] };
+    let disk = SimDisk::new(img);
+    disk.set_horizon(2_000_000);
+    let d2 = disk.clone();
+    let r = crate::util::catch_quiet(move || -> bool {
+        let vm: VM = VolumeManager::new_with_limits(d2, Clock::new(), 100);
+        let Ok(v) = vm.open_raw_volume(VolumeIdx(0)) else { return false };
+        if let Ok(root) = vm.open_root_dir(v) {
+            if let Ok(f) = vm.open_file_in_dir(root, "NEW.DAT", Mode::ReadWriteCreateOrTruncate) {
+                let _ = vm.write(f, &[0x5A; 700]);
+                let _ = vm.flush_file(f);
+                let _ = vm.write(f, &[0xA5; 600]);
+                let _ = vm.close_file(f);
+            }
+            let _ = vm.make_dir_in_dir(root, "ND");
+            let _ = vm.delete_file_in_dir(root, "EMPTY.DAT");
+            let _ = vm.close_dir(root);
+        }
+        let _ = vm.close_volume(v);
+        true
+    });
+    let mut out: Vec<(String, String)> = Vec::new();
+    let mounted = match r {
+        crate::util::Caught::Ok(m) => m,
+        crate::util::Caught::Panic(m) => {
+            out.push(("odd-info/panic".into(), format!("variant {}: {}", variant, m)));
+            true
+        }
+    };
+    let fat_lo = vol.lba + vol.reserved;
+    let data_lo = vol.lba + vol.first_data;
+    let data_hi = vol.data_end();
+    let is_info = |b: &[u8; 512]| b[0..4] == [0x52, 0x52, 0x61, 0x41] && b[484..488] == [0x72, 0x72, 0x41, 0x61] && b[508..512] == [0x00, 0x00, 0x55, 0xAA];
+    let mut cur = pre.clone();
+    for c in disk.take_log().iter().filter(|c| c.write && c.ok) {
+        let b = c.idx;
+        let data = c.data.as_ref().unwrap();
+        let mut bad = |sig: &str, detail: String| {
+            if !out.iter().any(|x| x.0 == sig) {
+                out.push((sig.to_string(), format!("variant {} ({}): {}", variant, if mounted { "mounted" } else { "refused" }, detail)));
+            }
+        };
+        if !mounted {
+            bad("odd-info/write-although-mount-refused", format!("block {} written", b));
+        } else if b < vol.lba || b >= vol.lba.saturating_add(vol.total) {
+            bad("odd-info/region/outside-partition", format!("block {} written; partition is [{}, {})", b, vol.lba, vol.lba + vol.total));
+        } else if b == vol.lba {
+            bad("odd-info/region/boot-sector", format!("boot sector {} written", b));
+        } else if b < fat_lo {
+            let p = cur.rd(b);
+            if !is_info(&p) {
+                bad("odd-info/region/reserved-block-that-is-no-information-sector", format!("reserved block {} written", b));
+            } else if (0..512).any(|i| !(488..496).contains(&i) && p[i] != data[i]) {
+                bad("odd-info/region/info-sector-other-bytes", format!("information sector {} changed outside bytes 488..496", b));
+            }
+        } else if b >= data_lo {
+            if b >= data_hi {
+                bad("odd-info/region/past-last-cluster", format!("block {} written; the last cluster ends at {}", b, data_hi));
+            } else {
+                let cl = 2 + (b - data_lo) / vol.spc;
+                let was_free = refat::low(&vol, fat[cl as usize]) == 0;
+                if !was_free && !root_chain.contains(&cl) {
+                    bad("odd-info/data/cluster-of-someone-else-written", format!("block {} (cluster {}, FAT entry {:#x} before the history) written", b, cl, fat[cl as usize]));
+                }
+            }
+        }
+        cur.put(b, data);
+    }
+    (out, mounted)
+}
+
+pub fn odd_info_sweep() -> (Vec<Violation>, u64, u64) {
+    let mut viols: Vec<Violation> = Vec::new();
+    let mut n = 0u64;
+    let mut mounted_n = 0u64;
+    for kind in [VolKind::V32a, VolKind::V32b] {
+        for variant in ODD_INFO_VARIANTS {
+            n += 1;
+            let (found, mounted) = odd_info_case(kind, variant);
+            if mounted {
+                mounted_n += 1;
+            }
+            if variant == "control" && !mounted {
+                crate::engine::machinery_fail("odd-info control volume does not mount");
+            }
+            for (sig, detail) in found {
+                if !viols.iter().any(|x| x.sig == sig) {
+                    viols.push(Violation { prop: "C04".into(), sig, detail, scenario: "odd-info".into(), hist: vec![], input: Some(serde_json::json!({"kind":"odd-info","volume":kind.name(),"variant":variant})) });
+                }
+            }
+        }
+    }
+    (viols, n, mounted_n)
+}
+
+pub fn replay_input_c04(inp: &serde_json::Value) -> i32 {
+    let kind = if inp["volume"].as_str() == Some("V32b") { VolKind::V32b } else { VolKind::V32a };
+    let variant = ODD_INFO_VARIANTS.iter().find(|v| Some(**v) == inp["variant"].as_str()).copied().unwrap_or("control");
+    let (found, mounted) = odd_info_case(kind, variant);
+    println!("volume {} variant {}: {}", kind.name(), variant, if mounted { "mounted" } else { "mount refused" });
+    for (s, d) in &found {
+        println!("VIOLATION property=C04 signature={}\n  {}", s, d);
+    }
+    if found.is_empty() {
+        println!("no violation on replay");
+        0
+    } else {
+        1
     }
 }
